@@ -73,7 +73,7 @@ def verify_function(src, key, prop, first=None):
             run.undecided.append(f"exception outside the function body: {e.exc} {e.msg}")
         except Exception as e:      # engine bug: never a verdict
             run.undecided.append("engine error: " + repr(e) + "\n" +
-                                 traceback.format_exc(limit=6))
+                                 traceback.format_exc(limit=-8))
             run.engine_error = True
     return finish(run, src, key, t0)
 
